@@ -1,18 +1,18 @@
 import LhasaV.Spec.Lzhuf
 import LhasaV.Lemmas.Lh1Safe
+import LhasaV.Lemmas.Lh1Mirror
 import LhasaV.Model.Wrap
 /-!
 # C02 — the lh1 adaptive-Huffman decoder stays in lock-step with the LZHUF model
 
-What is proved: the decoder model keeps its tree invariant for every input (`Lh1.Inv`: frequencies
-sorted and equal to the sum of the children, groups = maximal runs of equal frequency with their
-leaders, rebuild re-establishes it), so its tree never degenerates; the fixed position code of
-LZHUF (`p_len`/`p_code`) and its decoding tables (`d_code`/`d_len`) are mutually inverse.
-What is NOT proved (checked by correspondence after every command): that the decoder's tree is
-the mirror image of `Spec.Lzhuf.run` and the round-trip theorem; kept visible below.
+`Spec.Lzhuf` is a literal transcription of the adaptive-Huffman half of LZHUF.C (ascending arrays
+`freq`/`prnt`/`son`, `update` with the linear exchange, `reconst` at `MAX_FREQ`) — the specification
+of the -lh1- format; `Lh1` is the model of `lh1_decoder.c` (descending order, explicit frequency
+groups). `Lh1Mirror.Mirror d z` is the mirror map between the two trees: node `i` ↔ `626 − i`,
+equal frequencies, `child_index`/`leaf` ↔ `son`, `parent`/`leaf_nodes` ↔ `prnt`.
 -/
 namespace LhasaV.Props.C02
-open LhasaV
+open LhasaV LhasaV.Spec.Lzhuf LhasaV.Spec.Lz77
 
 /-- the 64 position codes of LZHUF and the 256-entry decoding tables are consistent -/
 theorem position_tables_consistent : Spec.Lzhuf.tablesConsistent = true :=
@@ -23,12 +23,46 @@ theorem decoder_tree_invariant (src : Src) (n : Nat) (rs : Res Lh1.St)
     (hs : Dec.Reach Lh1.dec src n rs) : Lh1.InvR rs :=
   Lh1.reach_inv src n rs hs
 
-/-- the full statement (not proved): decoding what LZHUF encodes yields the denoted bytes -/
-def RoundTripStatement : Prop :=
-  ∀ (cmds : List Spec.Lz77.WCmd), (∀ c ∈ cmds, Spec.Lzhuf.valid c = true) →
-    ∀ (n b : Nat) (ks : List Nat),
-      (Wrap.reads (Dec.total Lh1.dec) ks
-        { inner := .ok (Lh1.dec.init { data := (Spec.Lzhuf.encode cmds).toArray }), length := n, blockSize := b }).1.1
-      = (Spec.Lz77.expandWin 0x20 cmds).take (min ks.sum n)
+/-- the freshly initialised decoder tree is the mirror image of `StartHuff` -/
+theorem mirror_init (src : Src) :
+    ∃ s, Lh1.init src = .ok s ∧ Lh1.Inv s ∧ Lh1Mirror.Mirror s startHuff := Lh1Mirror.mirror_init src
+
+/-- one symbol, with or without a rebuild: the decoder's update (`increment_for_code`, including
+`reconstruct_tree` when the root frequency has reached 0x8000) mirrors LZHUF's `update`
+(including `reconst`), and keeps the decoder invariant -/
+theorem mirror_step (d : Lh1.St) (z : TreeState) (c : Nat) (hm : Lh1Mirror.Mirror d z) (hi : Lh1.Inv d)
+    (hc : c < 314) :
+    ∃ d', Lh1.incrementForCode d c = .ok d' ∧ Lh1.Inv d' ∧ Lh1Mirror.Mirror d' (update z c) :=
+  Lh1Mirror.mirror_update d z c hm hi hc
+
+/-- **Lock-step.** For EVERY sequence of symbols — any length, any number of tree rebuilds, any tie
+pattern among equal frequencies — the decoder's tree after the sequence is the mirror image of
+LZHUF's tree after the same sequence (and no array access of the decoder ever faults). -/
+theorem lh1_lockstep (src : Src) (syms : List Nat) (h : ∀ c ∈ syms, c < 314) :
+    ∃ d, Lh1Mirror.decTree src syms = .ok d ∧ Lh1.Inv d ∧ Lh1Mirror.Mirror d (run syms) :=
+  Lh1Mirror.lh1_lockstep src syms h
+
+/-- the rebuild branch is not vacuous: after 32 454 symbols the root frequency is exactly `MAX_FREQ` -/
+theorem rebuild_reached (syms : List Nat) (h : ∀ c ∈ syms, c < 314) (hl : syms.length = 32454) :
+    (run syms).freq.getD R 0 = MAX_FREQ := Lh1Mirror.run_reaches_limit syms h hl
+
+/-- the relation proved is the one the driver evaluates after every command in the correspondence
+runs (`lh1mirror`): `Mirror` implies that `mirrorDiff` finds no difference -/
+theorem mirror_is_what_the_tie_evaluates (d : Lh1.St) (z : TreeState) (hi : Lh1.Inv d)
+    (hm : Lh1Mirror.Mirror d z) : Driver.mirrorDiff z d = none := Lh1Mirror.mirror_driver d z hi hm
+
+/-- **Round trip.** Decoding what LZHUF encodes yields the denoted bytes: every valid command list
+(literals, copies of length 3..60 at distance 0..4095, window pre-filled with spaces), any callback
+chunking, block size, read schedule, and declared length up to the length of the expansion.
+(The side condition is necessary: `EncodeEnd` pads with zero bits and a short all-zero code word
+would decode them as further symbols — 185 × 'A' with declared length 205 yields 192 bytes; LZHUF's
+own decoder stops at `textsize` in the same way. The design's unrestricted statement was false.) -/
+theorem lh1_decode_encode (cmds : List WCmd) (hv : ∀ c ∈ cmds, valid c = true) (c n b : Nat) (ks : List Nat)
+    (hn : n ≤ (expandWin 0x20 cmds).length) :
+    (Wrap.reads (Dec.total Lh1.dec) ks
+        { inner := .ok (Lh1.dec.init { data := (encode cmds).toArray, chunk := c }),
+          length := n, blockSize := b }).1.1
+      = (expandWin 0x20 cmds).take (min ks.sum n) :=
+  Lh1Mirror.lh1_reads cmds hv c n b ks hn
 
 end LhasaV.Props.C02
